@@ -205,7 +205,8 @@ def c_legacy(l):
     else:
         side = "(Some [" + "; ".join(
             f"(mkSide {c_str(s['name'])} {c_ck(s['ck'])} {g.ql(s['pmin'])} {g.ql(s['pmax'])} "
-            f"{c_strs(s['dims'])} {c_strs(s['units'])} {g.q(s['tf'])})" for s in l["side"]) + "])"
+            f"{c_strs(s['dims'])} {c_strs(s['units'])} {g.q(s['tf'])})"
+            for s in sorted(l["side"], key=lambda q: q["name"])) + "])"
     return (f"(mkLeg {c_ck(l['ck1'])} {g.ql(l['p1'])} {c_ck(l['ck2'])} {g.ql(l['p2'])} {g.zl(l['n'])} "
             f"{g.z(l['dim'])} {c_dk(l['dk'])} {g.zl(l['shape'])} {c_vals(l['vals'])} {side})")
 
@@ -976,8 +977,14 @@ def run_round(rc):
             p2 = os.path.join(TMP, "twin.h5")
             sf2 = state_of(f2)
             stt, back2 = attempt(lambda: (f2.to_file(p2), read_back(p2))[1])
-            if stt != "ok" or back2[0] != "ok" or states_match(sf2, back2[1][1], exact=False):
+            if stt != "ok" or back2[0] != "ok":
                 extra.append("twin-field-not-preserved")
+            else:
+                d_ = states_match(sf2, back2[1][1], exact=False)
+                if sf2["unit"] == "None":          # known finding C10-unit-marker, flagged on the main field
+                    d_ = [k for k in d_ if k != "unit"]
+                if d_:
+                    extra.append("twin-field-not-preserved")
     stb, back = read_back(path)
     kinds = "".join([s0["ck"], "-"] + [s["ck"] for s in s0["subs"]])
     frac_sub = any(F(x).denominator != 1 for s in s0["subs"] for x in s["pmin"] + s["pmax"])
